@@ -16,41 +16,41 @@ TRUST = ("Trusted base: CPython's ast as a faithful parse of what ships (files u
 
 P = {
     "C01": dict(text="Writer/reader table agreement for every serialised key of the daily, billing, hourly and CalTRACK-hourly families, state coverage of the predict path, re-serialisability of what the reader stores, sibling evaluators, coefficient-order conventions. Decides the structural necessary conditions of an exact round trip for all inputs; bit-identity of floating point is not decided.",
-                tech="table agreement + value-flow (def-use) + symbolic round trip of the hourly state (to_dict and from_dict interpreted back to back on symbolic attributes, through the JSON data model) + abstract interpretation of the sibling evaluators and kernel wrappers (own AST interpreter); helper-transparency pre-pass", ref="4/C01, 9.8, 9.9"),
+                tech="table agreement + value-flow (def-use) + symbolic round trip of the hourly and daily/billing state (to_dict and from_dict interpreted back to back on symbolic attributes, through the JSON data model; the reader works on its own copy of the document) + abstract interpretation of the sibling evaluators and kernel wrappers (own AST interpreter) + effect analysis over the class hierarchy (no mutable state kept on the class and written through an instance); helper-transparency pre-pass", ref="4/C01, 9.8, 9.9, 9.10"),
     "C02": dict(text="Effect (write-set) analysis of every predict path against the serialised/read attribute sets, aliasing of data-object lists into models, copy-before-mutate origin analysis of the data classes, ownership of private frames. Holds for all call histories because it is a property of the code's write set.",
-                tech="effect / origin analysis over the call graph (ast)", ref="4/C02"),
+                tech="effect / origin analysis over the call graph (ast); effect analysis over the class hierarchy for class-level mutable state", ref="4/C02, 9.10"),
     "C03": dict(text="Inventory of nondeterminism sources (RNG, clocks, hash-order, process-global state) reachable from any fit/predict, each shown sanitised (seeded, sorted, guarded) by def-use; thread pins and private optimiser start vectors present. Decides 'no unsanitised source reaches a result'; library bit-reproducibility is not decided.",
-                tech="source inventory + def-use to sinks (ast, call graph)", ref="4/C03"),
+                tech="source inventory + def-use to sinks (ast, call graph); effect analysis over the class hierarchy for class-level mutable state", ref="4/C03, 9.10"),
     "C04": dict(text="For every model family the fit/predict CFGs are evaluated over all valuations of the guard atoms (dq, ignore, fitted, isinstance, timezone): work calls, normal returns and the dedicated raises are reachable exactly as the property's truth table says; raise-site census; no swallowing handler; poor-fit disqualification on every path; persistence of the disqualification list including snapshot ordering. Exhaustive over the finite guard space, for all inputs.",
                 tech="CFG reachability under exhaustive guard valuations (three-valued truth tables), dominance, who-may-raise census", ref="4/C04"),
-    "C05": dict(text="Column-level information flow: no def-use path from the reporting period's usage column to a kernel input, a feature list or a regime choice on any predict path; row filters and pass-through are classified and allowed. A thinly covered day stays a row of the daily roll-up (otherwise its weather is pooled into the previous day's prediction).",
-                tech="column-level information-flow (taint) analysis (ast, call graph) + one-row abstract interpretation of the daily usage roll-up (the set of meter days must not depend on usage values)", ref="4/C05, 9.9"),
+    "C05": dict(text="Column-level information flow: no def-use path from the reporting period's usage column to a kernel input, a feature list or a regime choice on any predict path; row filters and pass-through are classified and allowed. A thinly covered day stays a row of the daily roll-up and every calendar day of the span is a meter row (otherwise its weather is pooled into the previous day's prediction). Gap filling of the weather columns does not depend on the usage column, explicitly or through a test.",
+                tech="column-level information-flow (taint) analysis (ast, call graph) + one-row abstract interpretation of the daily usage roll-up + symbolic interpretation of interpolate() on recording values for every column order (explicit flow in the stored terms, implicit flow through the trie of explored tests) + interpretation of the daily calendar completion (date key classified)", ref="4/C05, 9.9, 9.10"),
     "C06": dict(text="Index provenance: the frame returned by predict is a reindex to / complement-concat of the data object's own index, sorted; no other row source. Clock normalisation: _get_dst_indices / correct_dst / _transform_dst interpreted from the AST over every day shape of the IANA database x position in the span (no raise, 24 slots per day, one value per timestamp, no shift). Numeric finiteness of the fitted model's output is not decided.",
-                tech="abstract interpretation (own AST interpreter): row-set frames for the daily/billing assembly, aggregation descriptions for billing predict, provenance values over the exhaustive IANA day-shape domain for the DST helpers; def-use for the hourly reindex", ref="4/C06, 9.6, 9.8"),
+                tech="abstract interpretation (own AST interpreter): row-set frames for the daily/billing assembly, aggregation descriptions for billing predict, provenance values (incl. 1-d arrays, masks, insert, rolling means) over the exhaustive IANA day-shape domain for the DST helpers; def-use for the hourly reindex", ref="4/C06, 9.6, 9.8, 9.10"),
     "C07": dict(text="Every path of the daily/billing _predict (masking on) passes an *effective* NaN store into observed for temperature-less rows of the frame that is concatenated into the result; stores into mask-selected temporaries are detected; predictions are produced only for rows that survived the completeness filters.",
                 tech="abstract interpretation of _initialize_data/_predict over row-set frames (stores reach the returned object, explored over flag/column/emptiness scenarios) + no-effect-store lint (ast)", ref="4/C07, 9.8"),
-    "C08": dict(text="Threshold/operator tables of the off-cycle and 50% rules, aggregation-kind typing (sum vs mean; /coverage only on sums), interval-spreading structure. The conservation sums themselves (pandas resampling arithmetic) are not decided.",
-                tech="one-row abstract interpretation of downsample_and_clean_daily_data (day of coverage c: kept, rescaled, warned); symbolic interpretation of as_freq on recording values compared with a reference term; interpretation of compute_minimum_granularity on threshold representatives; threshold tables (mask normalisation) + aggregation-kind tags (ast)", ref="4/C08, 9.8, 9.9"),
-    "C09": dict(text="A mean is never rescaled by coverage, the daily frame receives daily-kind columns, the 50% blanking rule (single definition of the invalid-day mask) and count definitions, sibling cross-check of the daily and billing implementations. merge_asof grouping and timezone arithmetic are not decided. The readings handed to the aggregation are the caller's temperature column, value-unchanged (R09.5).",
+    "C08": dict(text="Threshold/operator tables of the off-cycle and 50% rules, aggregation-kind typing (sum vs mean; /coverage only on sums), interval-spreading structure. Gaps must reach the coverage rule (the series handed to the down-sampling helper still carries its missing readings). The conservation sums themselves (pandas resampling arithmetic) are not decided.",
+                tech="symbolic interpretation of the daily data class's meter roll-up (what is handed to the down-sampling helper); one-row abstract interpretation of downsample_and_clean_daily_data (day of coverage c: kept, rescaled, warned); symbolic interpretation of as_freq on recording values compared with a reference term; interpretation of compute_minimum_granularity on threshold representatives; threshold tables (mask normalisation) + aggregation-kind tags (ast)", ref="4/C08, 9.8, 9.9"),
+    "C09": dict(text="A mean is never rescaled by coverage, the daily frame receives daily-kind columns, the 50% blanking rule (single definition of the invalid-day mask) and count definitions, sibling cross-check of the daily and billing implementations. merge_asof grouping and timezone arithmetic are not decided. The readings handed to the aggregation are the caller's temperature column, value-unchanged (R09.5); every calendar day of the span is a meter row, matched on year, month and day (R09.6).",
                 tech="abstract interpretation on recording frames: compute_temperature_features (aggregator and rename tables applied, grouping described) and _set_data (temperature column reaches the aggregation unaltered); kind tags per path (from the symbolic interpretation of as_freq) + structural patterns with metavariables + sibling cross-check (ast)", ref="4/C09, 9.8, 9.9"),
     "C10": dict(text="Per-family criteria call lists are exactly the published set, each predicate is (quantity, operator, threshold) as published, every warning construction reaches the right sink (disqualification vs warnings), plumbing order of the two lists. Exactness of the runtime counts is not decided. The hourly classes hand the criteria the frame with filled-in values blanked and coverage flags of the blanked temperature.",
                 tech="exhaustiveness + sink classification (ast, call graph); scalar criteria interpreted on one representative per side of every threshold; valid-day totals, monthly-coverage criteria and the frame handed to the hourly criteria interpreted on recording columns / a state frame (own AST interpreter)", ref="4/C10, 9.8, 9.9"),
-    "C11": dict(text="The full_model kernel is abstractly evaluated under every total pre-order of its comparison operands and zero/non-zero flags: regime table, boundary continuity, sign conventions; closed forms of the branches; load decomposition uses the kernel's own vector. Real-analysis facts about the smoothed curve are not decided.",
-                tech="abstract interpretation on dual numbers (representative value x sympy expression) over the exhaustive order/zero-pattern domain: kernel, wrappers, smoothing; recording stand-ins for the load decomposition (own AST interpreter)", ref="4/C11, 9.8"),
+    "C11": dict(text="The full_model kernel is abstractly evaluated under every total pre-order of its comparison operands and zero/non-zero flags: regime table, boundary continuity, sign conventions; closed forms of the branches; load decomposition uses the kernel's own vector. Where the smoothing fractions use up the whole gap the two shifted balance points are one value (no regime choice decided by rounding). Real-analysis facts about the smoothed curve are not decided.",
+                tech="abstract interpretation on dual numbers (representative value x sympy expression) over the exhaustive order/zero-pattern domain: kernel, wrappers, smoothing (incl. exact-tie identity); recording stand-ins for the load decomposition (own AST interpreter)", ref="4/C11, 9.8, 9.10"),
     "C12": dict(text="Bounds tables agree position-by-position with coefficient order, objective arity/ordering, declared model type <=> fields present, recorded temperature limits, scored-vs-stored pipeline order, read-back wrappers reorder like the scoring kernel. Optimiser behaviour and finiteness are not decided.",
                 tech="table agreement (ast) + abstract interpretation: bounds-preparation helpers on representative bound tables (one row per side of every guard at every slope/smoothing position), kernel wrappers on dual numbers, evaluators on recording stand-ins", ref="4/C12, 9.8, 9.9"),
     "C13": dict(text="Literal split options are set partitions, routing is the conjunction of season and day membership with a consistent key grammar, the unsplit model is always kept, each allow-flag bans its own split, strict arg-min idiom, selection-criteria exhaustive. The combination generator's output is not decided.",
-                tech="interpretation (own AST interpreter) of the combination generator/trimmer over all flag x Gaussian x data scenarios, of _meter_segment routing, of the arg-min, and of selection_criteria on symbolic scalars for every enum member; row-set frames for the prediction loop", ref="4/C13, 9.8, 9.9"),
-    "C14": dict(text="Census of every settings field (default, developer flag, constraints) against approved values and two independent in-repo oracles; the developer-mode lock is wired on every path and recurses; configuration is frozen/normalised; internal escalations enumerated. Exhaustive over all declared fields.",
-                tech="field census (literal evaluation) + CFG reachability + abstract interpretation of the recursive checker over all field kinds", ref="4/C14, 9.8"),
+                tech="interpretation (own AST interpreter) of the combination generator/trimmer over all flag x Gaussian x data scenarios, of _meter_segment routing, of the arg-min, and of selection_criteria on symbolic scalars for every enum member; the constructor interpreted for the split vocabulary; effect analysis over the class hierarchy (vocabulary is per model); row-set frames for the prediction loop", ref="4/C13, 9.8, 9.9, 9.10"),
+    "C14": dict(text="Census of every settings field (default, developer flag, constraints) against approved values and two independent in-repo oracles; the developer-mode lock is wired on every path and recurses; configuration is frozen and keys/values are normalised for every spelling class; the published cross-field rules are enforced exactly; internal escalations enumerated. Exhaustive over all declared fields.",
+                tech="field census (literal evaluation) + CFG reachability + abstract interpretation (own AST interpreter) of the recursive checker over all field kinds, of every after-validator on a boundary grid against the published cross-field rules, and of the key/value normalisers over spelling classes", ref="4/C14, 9.8, 9.10"),
     "C16": dict(text="Each computed statistic's return expression, with sibling properties inlined, is algebraically equal to the textbook formula; undefined-rather-than-number guard; poor-fit gates' truth tables; hourly baseline metrics come from predict(baseline) on non-interpolated rows.",
-                tech="expression normalisation (sympy as term normaliser) + truth tables + def-use (ast)", ref="4/C16"),
+                tech="expression normalisation (sympy as term normaliser) + truth tables + def-use (ast); daily error metrics and their bookkeeping interpreted on sympy-valued stand-ins, including a refit scenario on a constructed model object (statistics after a second fit are those of the second fit)", ref="4/C16, 9.9, 9.10"),
     "C17": dict(text="The hourly data class copies before mutating, zero->NaN only for electricity on observed, keep-first de-duplication, every interpolation store is bounded to cells that were missing, flags derive from was-missing-and-now-present in the right order; the contiguous index runs from wall-clock 00:00 of the first to wall-clock 23:00 of the last day (abstract wall-clock value, duration arithmetic rejected).",
                 tech="symbolic interpretation of interpolate()/_interpolate on recording values (every data-dependent branch, every lag threshold) + origin analysis + abstract wall-clock evaluation (ast)", ref="4/C17, 9.8"),
     "C18": dict(text="Exhaustive literal evaluation of the three weight tables (bijection, 3-cover, 1/0.5/0.5 neighbours), prediction routing month -> own centred window, hour_of_week form, complementary occupancy masks, bin-feature regime table.",
-                tech="exhaustive literal evaluation of the weight tables (constant evaluation) + one-row abstract interpretation of the bin features over all endpoint subsets (stand-ins on the own AST interpreter) + structural checks of routing and masks (ast)", ref="4/C18, 9.9"),
+                tech="one-row abstract interpretation (stand-ins on the own AST interpreter, incl. constant NumPy tables and the UTC-instant view of an index) of the weight tables for an hour of every local month x UTC-calendar position x tz-aware/naive, of segment_time_series and SegmentedModel routing, and of the bin features over all endpoint subsets; structural checks of masks (ast)", ref="4/C18, 9.9, 9.10"),
     "C19": dict(text="Column -> aggregator table of the billing aggregation (sum/mean/root-sum-square/first), same frequency variable everywhere, dispatch None/monthly/bimonthly with a rejecting else on every path, aggregation consumes _predict's frame; sibling cross-check of the weighted model.",
-                tech="abstract interpretation of both billing predict implementations over aggregation descriptions (column, source frame and every operation applied to it, resample rule, reduction recognised by applying it to a symbol) for every aggregation value x with/without usage; sibling cross-check", ref="4/C19, 9.8, 9.9"),
+                tech="abstract interpretation of both billing predict implementations over aggregation descriptions (column, source frame and every operation applied to it, resample rule, reduction recognised by applying it to a symbol) for every aggregation value x with/without usage; staged aggregations composed exactly (sum/first/RSS compose on nested periods, mean does not); sibling cross-check", ref="4/C19, 9.8, 9.9, 9.10"),
     "C20": dict(text="The frames returned by get_baseline_data/get_reporting_data derive from the input only by label slices whose bounds are the requested limits (never loosened), no expression in the data/control slice of the returned window reads the uncut input (non-interference), the only in-place store targets a fresh copy on every path, dedicated errors on empty selection, gap warnings' conditions; sibling cross-check.",
                 tech="reaching definitions + origin analysis + backward data/control slice (ast, CFG)", ref="4/C20"),
 }
